@@ -18,7 +18,7 @@ use std::time::{Duration, Instant};
 use log::{debug, trace, warn};
 use wincode::{SchemaRead, SchemaWrite};
 
-use crate::consensus::{DELTA, SharedBlockstore, SharedPool, ValidatorEpochInfo};
+use crate::consensus::{AddShredError, DELTA, SharedBlockstore, SharedPool, ValidatorEpochInfo};
 use crate::crypto::merkle::{DoubleMerkleProof, DoubleMerkleTree, SliceRoot};
 use crate::crypto::{Hash, hash};
 use crate::disseminator::rotor::{SamplingStrategy, StakeWeightedSampler};
@@ -449,8 +449,6 @@ where
                     warn!("repair response (Shred) with invalid Merkle proof or signature");
                     return;
                 };
-                self.outstanding_requests.remove(&request_hash);
-
                 // store shred
                 let res = self
                     .blockstore
@@ -458,6 +456,13 @@ where
                     .await
                     .add_shred_from_repair(block_hash.clone(), validated)
                     .await;
+                // a shred refused for its data/coding tag is not the shred that was asked for
+                // (the tag is not authenticated): keep waiting for a correct answer
+                if matches!(res, Err(AddShredError::MisplacedShred)) {
+                    warn!("repair response (Shred) with a data/coding tag not matching its position");
+                    return;
+                }
+                self.outstanding_requests.remove(&request_hash);
                 if let Ok(Some(block_info)) = res {
                     assert_eq!(block_info.hash, *block_hash);
                     self.pool
